@@ -406,8 +406,13 @@ class Exec:
             and isinstance(n.func.value.func, ast.Name)
             and n.func.value.func.id == "super"
         ):
-            return self.super_call(st, n)
+            fv0 = self.super_function(st, n)
+            if fv0 is None:
+                return [Res(st, NONE)]  # object.__init__
+            return self._call_with_args(st, fv0, n)
+        return self.bind(self.ev(st, n.func), lambda s, fv: self._call_with_args(s, fv, n))
 
+    def _call_with_args(self, st, fv, n):
         def with_func(s, fv):
             # evaluate arguments
             pos_nodes = []
@@ -453,7 +458,21 @@ class Exec:
 
             return self.bind(self.ev_list(s, pos_nodes + kw_nodes), with_args)
 
-        return self.bind(self.ev(st, n.func), with_func)
+        return with_func(st, fv)
+
+    def super_function(self, st, n):
+        mname = n.func.attr
+        cur_cls = st.locals.get("__class__")
+        self_v = st.locals.get("self")
+        if cur_cls is None or self_v is None:
+            raise Unsupported("super() outside method")
+        inst = st.obj(self_v)
+        fi = self.P.lookup_method(inst.cls, mname, after=cur_cls)
+        if fi is None:
+            if mname == "__init__":
+                return None
+            raise Unsupported(f"super().{mname} unresolved")
+        return VFunc(fi, self_v=self_v)
 
     def super_call(self, st, n):
         mname = n.func.attr
@@ -753,11 +772,16 @@ class Exec:
         return self._lift(self.ev(st, n.value), lambda s, v: [Out(s, "return", v)])
 
     def ex_Import(self, st, n):
+        if any(a.name.split(".")[0] in ("pyspark", "pandas") for a in n.names):
+            return [Out(st, "raise", exc=Exc("ImportError", n.names[0].name))]
         for a in n.names:
             st.locals[a.asname or a.name.split(".")[0]] = VModule(a.name if a.asname else a.name.split(".")[0])
         return [Out(st)]
 
     def ex_ImportFrom(self, st, n):
+        if n.module and n.module.split(".")[0] in ("pyspark", "pandas"):
+            # environment assumption: optional dependencies are not importable inside verified functions
+            return [Out(st, "raise", exc=Exc("ImportError", n.module))]
         for a in n.names:
             if n.module in self.P.modules:
                 st.locals[a.asname or a.name] = self.lookup_global(st, a.name, n.module)
